@@ -61,6 +61,19 @@ def c01_api(r, idx):
         f = first.field.add(); f.name, f.number, f.label, f.type, f.type_name = "status_report", 75, 1, 11, rep.fqn
         extra_files.append(st)
         feats.append("same-basename-dependency")
+    if idx % 3 != 2:
+        # resources whose pattern has no variable (the pure wildcard) or only literals: helpers with no argument, in the sync client,
+        # the asyncio aliases and the emitted tests alike
+        from google.api import resource_pb2
+        api.main.resource_def("library.example.com/AnyAsset", ["*"])
+        api.main.resource_def("library.example.com/Singleton", ["settings"])
+        rqs = [m for m in api.main.proto.message_type if m.name.endswith("Request")]
+        if rqs:
+            tgt = rqs[idx % len(rqs)]
+            for nm, num, typ in (("any_asset", 76, "library.example.com/AnyAsset"), ("singleton", 77, "library.example.com/Singleton")):
+                f = tgt.field.add(); f.name, f.number, f.label, f.type = nm, num, 1, 9
+                f.options.Extensions[resource_pb2.resource_reference].type = typ
+            feats.append("resource-pattern-without-variables")
     if idx % 2 == 0:
         # a NESTED message with a field named like a sibling module it also takes a type from (the module must be aliased)
         cm = File(f"{api.dir}/common.proto", api.package)
